@@ -69,6 +69,8 @@ NumLits == {"typ", "0", "4294967296", "18014398509481984", "9223372036854775808"
 BigLits == {"18014398509481984", "9223372036854775808", "18446744073709551615"}   \* times 1024 leaves u64
 Depths == {"none", "n:33", "n:65", "n:1000", "n:10000", "n:100000", "n:250000"}
 DeepDepths == {"n:1000", "n:10000", "n:100000", "n:250000"}
+CutDom == {"n:0", "n:1", "n:2", "n:8", "n:9", "n:10", "n:11", "n:12", "n:13", "n:14", "n:15", "n:16", "n:17", "n:18",
+           "n:19", "n:20", "n:21", "n:22", "n:23", "n:24", "n:25", "n:26", "n:27"}
 SeekDom == {"zero", "typ", "under", "halfm1", "max", "maxm1"}
 NameOffsets == {"n:0", "n:1", "n:2", "n:3", "n:4", "n:5", "n:6", "n:7", "n:8", "n:9", "n:10", "n:11", "n:12", "n:13",
                 "n:14", "n:15", "n:16", "n:17", "n:18", "n:19", "n:20"}
@@ -169,6 +171,11 @@ Row(fmt) ==
            En("unit", {"none", "K", "M", "star32", "star33"}, {"none", "K", "M", "star32"}),
            EnD("depth", Depths, {"none", "n:33"}, "F02t"),
            En("opener", {"n:0", "n:1", "n:2"}, {"n:0", "n:1", "n:2"})>>
+    [] fmt = "blte_echunk" ->
+         \* the payload of an encrypted BLTE chunk whose key the store knows: IV size, encryption type, and the
+         \* payload cut after `cut` bytes - every field boundary of the header (1, 9, 10, 10+iv, 11+iv) and around it
+         <<En("ivs", {"n:4", "n:8"}, {"n:4", "n:8"}), En("cut", CutDom, CutDom),
+           En("typ", {"typ", "n:65", "bad"}, {"typ", "n:65"})>>
     [] fmt = "zbsdiff_ctl" ->
          \* the *decoded* control block of a ZBSDIFF1 patch: seek offsets of three entries, then diff3 diff bytes
          <<En("seek0", SeekDom, SeekDom), En("seek1", SeekDom, SeekDom), En("seek2", SeekDom, SeekDom),
@@ -189,7 +196,7 @@ Row(fmt) ==
 
 Heads == {"blte", "blte_enc_header", "encoding", "archive_index", "root", "install", "download", "size", "tvfs",
           "patch_archive", "patch_index", "zbsdiff", "local_idx", "lru", "shmem", "dirnames", "zbsdiff_ctl",
-          "patch_index_block2", "patch_index_block8"} \cup TextFormats
+          "patch_index_block2", "patch_index_block8", "blte_echunk"} \cup TextFormats
 Decomp(fmt) == fmt \in {"blte_decompress", "encoding_blte", "tvfs_blte", "zbsdiff_apply"}
 
 FieldNames(fmt) == {Row(fmt)[i].n : i \in 1..Len(Row(fmt))}
